@@ -718,12 +718,14 @@ pub fn execute(plan: &Plan) -> RunOut {
                             && datagrams.saturating_sub(mark.1) > BUSY_LIVELOCK_DATAGRAMS
                             && op_starts.iter().any(|s| t.saturating_sub(*s) > BUSY_LIVELOCK_NS);
                         let livelocked = livelocked || busy;
-                        if over {
+                        if over && !(parked || livelocked) {
                             over_budget = true;
-                            capped = parked || livelocked;
                             break;
                         }
                         if parked || livelocked {
+                            // (also when the datagram budget ends the run at the same moment: the
+                            // reason decides the cause signature, an empty one read as "parked")
+                            over_budget = over;
                             capped = true;
                             hang_reason = if parked {
                                 format!("an operation has been pending and no datagram was delivered for more than {} s (idle timeout 30 s)", (IDLE_TIMEOUT_NS + PARKED_SLACK_NS) / 1_000_000_000)
